@@ -12,59 +12,58 @@ COMMON_NOTE = ("Trusted: Lean 4.33 kernel (+ propext, Classical.choice, Quot.sou
                "(harness/ + lean/Main.lean + tools/) for the algorithmic parts; Rust std and the sha256 crate are modelled by contract. ")
 
 P = {
-    "C01": ("proof", "Theorems (all grammars, all token strings, unbounded): for any automaton satisfying the local conditions Sound/Complete the emitted driver (LR.step) never panics, "
-            "Ok ⇒ the returned tree is a derivation tree of the whole input, and every sentence is accepted with its tree (C01_no_panic_and_sound, C01_complete). "
-            "That the generator's automaton satisfies Sound∧Complete is established per generated grammar; the compiled emitted parsers are run against an Earley recogniser and the model driver. "
-            "Residue: halting on non-sentences is tested (watchdog), not proved; Sound∧Complete for *every* grammar (generator proof) is not yet a theorem.",
-            "§6.1, §7 C01", "generic LR soundness/completeness theorems + per-grammar validation + compiled-parser correspondence"),
-    "C02": ("proof", "Theorems: Ok t ⇒ WF t start ∧ yield t = the consumed tokens themselves (payloads opaque, each once, in order) (C02_tree); for a sentence the driver returns exactly its derivation tree (C02_that_tree); "
-            "two derivation trees with one yield are equal, i.e. unambiguity under Complete (C02_unique). The user-visible value (userView/Debug) is compared with the compiled parser's Ok value and with the Earley oracle's unique tree.",
-            "§6.1, §7 C02", "generic LR theorems + Debug-rendering correspondence"),
+    "C01": ("proof", "Theorems (any grammar, any token sequence of any length, any payload type): for an automaton given as data that the executable validator accepts (validB, proved sound: validB_sound ⇒ Sound ∧ Complete), the loop of the emitted parse never panics and, whenever it ends, returns Ok iff the token kinds are derivable from the start symbol; every sentence terminates with its tree (C01_accepts_iff, C01_sentences_terminate, C01_no_panic_and_sound, C01_complete). "
+            "validB is run on the machine and table the *implementation* built for every generated grammar (per-grammar proof for all strings), and the compiled emitted parsers are run against an Earley recogniser and the model driver. "
+            "Residue: halting on non-sentences is tested (watchdog), not proved; 'validB holds for the generator's output for *every* grammar' (DESIGN §6.2) is not a theorem.",
+            "§0, §6.1, §7 C01", "generic LR theorems + proved-sound validator on the implementation's automata + compiled-parser correspondence"),
+    "C02": ("proof", "Theorems: an accepted run returns a well-formed derivation tree whose leaves are the input tokens themselves (payloads opaque), each once and in order, and it is the only derivation tree of that input (C02_faithful, C02_tree, C02_that_tree, C02_unique), for every validB-accepted automaton. "
+            "The user-visible value (userView, derive(Debug) rendering) is compared with the compiled parser's Ok value and with the Earley oracle's unique tree projected through the declared fieldsets; a panic on a sentence is a violation.",
+            "§0, §6.1, §7 C02", "generic LR theorems + Debug-rendering correspondence"),
     "C03": ("proof", "Theorem: under CoreSound every item in the top state is LR(0)-valid for the stack symbols (C03_viable) — the 'no shift past a dead prefix' core. "
-            "Partial: the converse (no early stop), the productivity step to Extendable and the pull count are established by the correspondence (counting iterator vs prefix-Earley oracle, canonical LR(1) reference for unproductive grammars), not yet by theorem.",
+            "Partial: the converse (no early stop), the productivity step to Extendable and the pull count are established by the correspondence (counting iterator vs prefix-Earley oracle; canonical LR(1) reference driver for grammars with unproductive nonterminals), not by theorem.",
             "§6.1(3), §7 C03", "viable-prefix theorem + compiled-parser correspondence with counting iterator"),
-    "C04": ("proof", "Theorems about conflict detection in machine_to_table: a second demand for a filled cell is accepted iff it is the same action; an empty cell is always filled (C04_setAction_*). "
-            "Partial: 'the automaton is the LALR(1) automaton' (§6.3) is not a theorem; the verdict is compared on every generated grammar with conflict-freeness of a specification-side LALR(1) construction (canonical LR(1) merged by core, a different algorithm) and with the model.",
-            "§6.3, §7 C04", "set_action theorems + verdict vs spec-side LALR(1) oracle"),
+    "C04": ("proof", "Theorems (every grammar, every automaton handed to machine_to_table): success ⇒ no state has two items demanding different actions on one lookahead column (C04_ok_conflict_free); a reported conflict is such a pair (C04_conflict_genuine); a repeated identical action is not a conflict (C04_setAction_*). "
+            "Partial: 'the automaton is the LALR(1) automaton of the grammar' (§6.3) is not a theorem; the verdict is compared on every generated grammar with conflict-freeness of a specification-side canonical-LR(1)-merged-by-core construction (a different algorithm) and with the model.",
+            "§6.3, §7 C04", "table-level theorems + verdict vs spec-side LALR(1) oracle"),
     "C05": ("proof", "A theorem cannot say 'rustc accepts'. Proved: every internal name chosen by create_unique_identifier is fresh w.r.t. all names in use and is recorded (C05_fresh). "
-            "The emitted text is byte-equal to the model's rendering; rustc type-checks the emitted module for adversarial namings (generator-internal names, S, numeric-suffix neighbours, letterless names) with derive-less payload types. "
-            "Known finding: zero-variant terminal enum does not compile.",
+            "The emitted text is byte-equal to the model's rendering; rustc type-checks the emitted module for adversarial namings (generator-internal names, S, Eof, numeric-suffix neighbours, letterless names) with derive-less payload types. Known finding: zero-variant terminal enum.",
             "§7 C05, §12", "freshness theorem + rustc on adversarial namings"),
-    "C06": ("proof", "Theorem: the emitted structure has one public item per nonterminal with the declared name, in declaration order, struct for struct / enum for enum, and the parse signature names the start type and the terminal enum (C06_items_and_signature). "
-            "Field-level mirroring (Box<N>, payload types, `_` dropped, pub) is checked by reading the emitted text back and comparing with the declaration→Rust mapping of the property, and by byte equality with the model's rendering.",
+    "C06": ("proof", "Theorem: one public item per nonterminal with the declared name, in declaration order, struct for struct / enum for enum; the parse signature names the start type and the terminal enum (C06_items_and_signature). "
+            "Field-level mirroring (Box<N>, payload types, `_` dropped, pub, unit-like collapse) is checked by reading the emitted text back and comparing with the declaration→Rust mapping of the property, and by byte equality with the model's rendering.",
             "§7 C06", "structure theorem + reader oracle on emitted text"),
-    "C07": ("proof", "First layer only: bracket scan and main-state character handler never panic (theorems). Partial: the full C07_no_panic / C07_terminates are not yet theorems; every stage is run under catch_unwind (and generate() in child processes) on valid, mutated, malformed and size-bound inputs, and the outcome class is compared with the model, whose panics are explicit (Res.panic at every unwrap/slice/index site).",
-            "§7 C07", "partial no-panic theorems + catch_unwind correspondence"),
-    "C08": ("proof", "Spec.scan (lean/KikiVerif/Spec/Lex.lean) states the documented rules as a scanner with explicit maximal munch and a bracket stack; theorem: it is total and only ever reports Lex errors (C08_scan_total), `::` is always one token (C08_double_colon). "
-            "Partial: tokenize = scan is not yet a theorem; the implementation is compared with scan and with the state-machine model on every generated text.",
-            "§7 C08", "scanner specification + three-way differential (impl, model, spec)"),
-    "C09": ("proof", "Kernel-evaluated theorems over data regenerated from parser.rs / parser.kiki on every run: token kinds, nonterminal kinds, rule numbering and reduce arms (pops = truncate = |rhs|, lhs) agree between parser.rs, parser.kiki and the model (C09_*). "
-            "Partial: validity of the extracted tables for the Kiki grammar (⇒ 6.1 theorems) is not yet kernel-checked; acceptance and the exact error span are compared with an Earley oracle for the grammar read from parser.kiki.",
-            "§7 C09", "translator + decide over extracted data + Earley oracle"),
-    "C10": ("proof", "Theorem: validate succeeds only with exactly one terminal declaration and exactly one start, whose name is the returned start (C10_one_start_one_terminal). "
-            "Partial: the full Ok ⇒ WellFormed / Err ⇒ Truthful are evaluated as oracles on the implementation's answers for files with 0–3 injected violations of 23 kinds (incl. cross-namespace names), and the answers are compared with the model.",
-            "§7 C10", "partial theorem + WellFormed/Truthful oracles"),
-    "C11": ("proof", "Theorem: set_action reports a conflict only for the state asked about, pairs the item that filled the cell with the new item, and their actions differ (C11_setAction_conflict). "
-            "Partial: membership of both items in the state and 'attached machine = LALR(1) automaton' are checked on every conflicting grammar of the run against the oracle (and all public fields against the model).",
-            "§7 C11", "set_action theorem + payload oracle"),
-    "C12": ("proof", "Theorem: every emitted type item carries exactly its declaration's attribute texts, in order (C12_emit); render prints them one per line directly before the item. "
-            "Partial: the tokenizer side (attribute token = source slice) rests on tokenize = scan (not yet a theorem) and is compared on attributes with non-ASCII text and nested brackets.",
-            "§7 C12", "structure theorem + verbatim check on emitted text"),
+    "C07": ("proof", "Proved: the tokenizer never panics on any text (it equals the total scanner specification: C08_tokenize_total), the front-end parser never panics on any token list (C09_parse_correct); bracket scan and main-state handler (C07 module). "
+            "Partial: no-panic for validation→emission and the termination bounds are not theorems; every stage runs under catch_unwind with a watchdog (and generate() in child processes) on valid, mutated, malformed and size-bound inputs; the model's panics are explicit (Res.panic at every unwrap/slice/index site) and its outcome class is compared.",
+            "§7 C07", "partial no-panic theorems + catch_unwind/watchdog correspondence"),
+    "C08": ("proof", "Full for the tokenizer: for every source text, the character state machine of tokenize.rs (model with explicit byte indices and source slices) = the scanner specification Spec.scan, which states the documented rules with explicit maximal munch and a bracket stack: same tokens, payloads and byte positions, or the same Lex(index, char?) (C08_tokenize_eq_spec; ≈ 900 lines of proof). Spec is total and only reports Lex (C08_scan_total); `::` is always one token. "
+            "The implementation is compared with scan and with the model on every generated text and on single-character probes over all scalars < U+3100 (all scalars in thorough).",
+            "§0, §7 C08", "tokenize = scanner-specification theorem + three-way differential"),
+    "C09": ("proof", "Kernel-checked over data regenerated from parser.rs / parser.kiki on every run: the checked-in ACTION/GOTO tables satisfy every local LR validity condition for the grammar of parser.kiki (C09_table_valid, decide +kernel), hence for every token list the front-end parser never panics, returns a CST iff the list is a sentence of that grammar, and the CST's leaves are the input tokens (C09_parse_correct); kinds, rule numbering and reduce arms agree (C09_kinds, _nonterminals, _rule_numbering, _reduce_arms). "
+            "Partial: halting on invalid token lists; the exact error span (Token::start/content_len vs source) is compared with an Earley oracle's least dead prefix and the token texts.",
+            "§0, §7 C09", "translator + kernel evaluation of the validator + Earley oracle"),
+    "C10": ("proof", "Theorem: validate_ast = Ok ⇒ WellFormed (Spec/WellFormed.lean): exactly one start naming a defined nonterminal, exactly one terminal enum, every reference defined in its own namespace, pairwise distinct top-level names, per-enum distinct variant names and symbol sequences, capitalisation (C10_ok_sound). "
+            "Partial: Err ⇒ Truthful and WellFormed ⇒ Ok are evaluated as oracles on the implementation's answers for files with 0–3 injected violations of 23 kinds (incl. cross-namespace names), and all answers are compared with the model.",
+            "§7 C10", "Ok⇒WellFormed theorem + Truthful oracle"),
+    "C11": ("proof", "Theorem (every grammar, every automaton): a conflict report names a state of the automaton, two items of that state, and they demand different parser actions on the same lookahead column (C11_payload). "
+            "Partial: 'attached automaton = LALR(1) automaton' (§6.3) and 'attached file = validated input' are checked on every conflicting grammar of the run against the oracle and the model.",
+            "§7 C11", "conflict-payload theorem + LALR(1) isomorphism oracle"),
+    "C12": ("proof", "Theorems: the attribute token is exactly the source slice the scanner specification delimits with a bracket stack (via C08_tokenize_eq_spec); every emitted type item carries exactly its declaration's attribute texts, in order (C12_emit); render prints them one per line directly before the item. "
+            "Partial: order preservation through cst_to_ast is compared, not proved; verbatim occurrence is checked on the emitted text for attributes with non-ASCII text and nested brackets.",
+            "§7 C12", "tokenizer theorem + structure theorem + verbatim check on emitted text"),
     "C13": ("proof", "Theorem: terminal enum variants and try_into_* methods carry the validated type string of that terminal (C13_use_sites). "
-            "Partial: typeToString/tokenize round trip is not yet a theorem; every use site in the emitted text is re-tokenised and compared with the declaration (types nested to depth 5).",
+            "Partial: the typeToString/tokenize round trip is not a theorem; every use site in the emitted text (incl. fields, through get_type) is re-tokenised and compared with the declaration (types nested to depth 5, near-duplicate terminal names).",
             "§7 C13", "structure theorem + re-tokenisation of use sites"),
     "C14": ("proof", "Theorem: collecting a hash set into an Oset gives the same vector for every iteration order (C14_ofList_perm, site 1 of 3). "
-            "Partial: sites 2–3 (table written by key, defined-identifier set) not yet theorems; generate is run 10× per text in fresh threads and in further processes (fresh RandomState) and compared byte for byte.",
+            "Partial: sites 2–3 not yet theorems; generate is run 10× per text in fresh threads and in further processes (fresh RandomState) and compared byte for byte / structurally.",
             "§7 C14", "permutation-invariance theorem + repeated runs across threads/processes"),
-    "C15": ("proof", "Theorem for all texts: get_grammar_hash = remainder of the first `// @sha256 ` line inside the leading `//` block, else None (C15_spec, stated with takeWhile/find?). "
-            "Partial: the round trip through render is checked on generated outputs (digest compared with hashlib); SHA-256 itself is a parameter.",
-            "§7 C15", "spec theorem + round-trip correspondence"),
-    "C16": ("proof", "Theorem: the specification scanner skips a White_Space character without producing a token (C16_skip_whitespace). "
-            "Partial: comment skipping and the downstream relabelling lemma are not yet theorems; every base file is compared with random re-layouts (Unicode spaces, CR/LF, comments) modulo digest and position→token-index map.",
-            "§7 C16", "scanner lemma + re-layout differential"),
-    "C17": ("proof", "Theorem: the table starts all-Err/None (C17_empty_table) and cells are only written by key. "
-            "Partial: exactness w.r.t. the LALR(1) automaton (§6.3) is not a theorem; tables read back from the emitted text are compared, modulo the renumbering from the start state, with the tables of the specification-side LALR(1) construction on every accepted grammar.",
-            "§6.3, §7 C17", "table theorem + LALR(1) table oracle on emitted text"),
+    "C15": ("proof", "Full for the model: for all texts get_grammar_hash = remainder of the first `// @sha256 ` line inside the leading `//` block, else None (C15_spec); for every emitted module get_grammar_hash(render m) = the digest in the header (C15_roundtrip) and the build-script freshness test succeeds iff the digests are equal (C15_fresh). "
+            "SHA-256 itself is a parameter: the real header is compared with hashlib on every generated output.",
+            "§7 C15", "specification + round-trip theorems + hashlib"),
+    "C16": ("proof", "Theorems: tokenize = Spec.scan (C08), and the scanner skips a White_Space character without producing a token (C16_skip_whitespace). "
+            "Partial: comment skipping as a separate lemma and the downstream relabelling lemma are not theorems; every base file is compared with random re-layouts (all 25 White_Space characters, CR/LF, comments) modulo digest and position→token-index map.",
+            "§7 C16", "scanner theorems + re-layout differential"),
+    "C17": ("proof", "Theorem: the table starts all-Err/None (C17_empty_table), cells are only written by key, and a written cell is demanded by an item of its state (Proofs/Table). "
+            "Partial: exactness w.r.t. the LALR(1) automaton (§6.3) is not a theorem; tables read back from the emitted text are compared, modulo the renumbering from the start state, with the tables of the specification-side LALR(1) construction on every accepted grammar; validB (proved sound) is run on every implementation automaton.",
+            "§6.3, §7 C17", "table theorems + LALR(1) table oracle on emitted text"),
     "C18": ("proof", "Full: for every history of new/from_iter/insert/extend over any type with a lawful total order: strictly ascending vector, membership = the mathematical set, contains decides membership, iteration yields each element once ascending, equal element sets ⇒ equal vectors (C18_sorted, _refines, _contains, _iter, _ext). "
             "std sort/dedup/binary_search are modelled by contract; kiki::Oset is compared with BTreeSet and with the model on random histories over u32, (u8,u8), String.",
             "§7 C18", "invariant + refinement + extensionality theorems"),
@@ -104,7 +103,7 @@ def main():
         }],
         "checks": checks,
         "not_applicable": [],
-        "notes": "See DESIGN.md. Genuine defects found: known_findings.txt (9 fixed by 'fix:' commits in /repo, 1 recorded as known).",
+        "notes": "See DESIGN.md §0 (as built), §12 (defects: 9 fixed by 'fix:' commits in /repo, 1 recorded in known_findings.txt), §15 (28 seeded changes and which checks catch them).",
     }
     with open(os.path.join(ROOT, "MANIFEST.json"), "w") as f:
         json.dump(m, f, indent=1, ensure_ascii=False)
